@@ -171,3 +171,21 @@ Example c03_example :
   end = true /\
   no_inverse (Wrap 7%N WInverse r) = false.
 Proof. vm_compute. repeat split. Qed.
+
+(* non-vacuity of the REVERSED order of a transposed composition: a symmetric band Toeplitz operator (K = 2,
+   acting through its measured matrix) and a diagonal operator with distinct entries are their own transposes,
+   but they do not commute: the model of (T @ D).T is D @ T - not T @ D - and its matrix (given by columns) is
+   the transpose of, and differs from, the matrix of T @ D *)
+Example c03_symmetric_operands_do_not_commute :
+  let s := Leaf (mkSds [3%nat] 0%nat) in
+  let q (n : Z) : K := Q2Qc (inject_Z n) in
+  let tb : table := [(2%N, [[q 2; q 1; q 0]; [q 1; q 2; q 1]; [q 0; q 1; q 2]]%Z)] in
+  let t : xop := Prim 1%N CToeplitz s s (PKey 2%N) in
+  let d : xop := Prim 2%N CDiagonal s s (PDiag 0%Z [1%Q; 2%Q; (-4)%Q]) in
+  let e : xop := Comp 3%N [t; d] in
+  let cols (l : list (list Z)) := Some (map (map (fun z => (z, 1%Z))) l) in
+  x_transpose t = t /\ x_transpose d = d /\ x_transpose e = Comp fresh [d; t] /\
+  no_inverse e = true /\ wfo e = true /\ sym_square e = true /\
+  mat tb e = cols [[2; 1; 0]; [2; 4; 2]; [0; -4; -8]]%Z /\
+  mat tb (x_transpose e) = cols [[2; 2; 0]; [1; 4; -4]; [0; 2; -8]]%Z.
+Proof. vm_compute. repeat split. Qed.
